@@ -307,3 +307,22 @@ MANIFEST_TEXT["C19"] = {
     "technique": "runtime monitoring: reference-model oracle (complete extensions) on generated frameworks",
 }
 NOT_APPLICABLE[:] = [e for e in NOT_APPLICABLE if e["property_id"] not in ("C18", "C19")]
+
+PROPS["C06"] = {
+    "level": "exploration",
+    "rule": "cases = (framework, problem, query) evaluated under a lattice of configurations: every selectable encoder x {embedded CaDiCaL, harness DPLL backend, ExternalSatSolver->msat, ExternalSatSolver->kissat} x {with, without certificate}, as a star around the reference configuration plus random combinations; all statuses (for SE: extension / no extension) must be equal to each other and to the oracle. One solver object per type receives a random sequence with repetitions of SE/DC/DS queries with and without certificate and each answer is compared with a fresh object's; the framework's public observables are compared before and after all queries. A subset goes through `crustabri solve --encoding X --external-sat-solver Y [-c]`. Non-trivial: the reference run needed >= 2 SAT calls or the framework has >= 2 components, or a query sequence of length >= 4; distinct = hash of (graph, presentation kind, problem, query | sequence).",
+    "assumptions": ORACLE_ASSUMPTIONS + ["external backends: msat (strict, CaDiCaL-backed) and kissat; a third, pure-Rust DPLL backend of the harness widens the differential"],
+    "thresholds": {
+        "quick": {"evaluations": 200000, "distinct_nontrivial": 20000,
+                  "counters": {"configurations/encoding": 30000, "configurations/backend": 30000, "configurations/certificate": 20000,
+                               "backend_runs/ext:msat": 1500, "backend_runs/ext:kissat:-q": 1500, "backend_runs/dpll": 30000,
+                               "order/queries-on-reused-object": 50000, "framework_snapshots_compared": 1000, "cli_runs": 500}},
+        "thorough": {"evaluations": 5000000, "distinct_nontrivial": 400000, "counters": {}},
+    },
+}
+MANIFEST_TEXT["C06"] = {
+    "level_text": "Differential monitoring across the configuration lattice (encoder x backend x certificate flag) with the brute-force oracle as tie-breaker against common-mode errors, history checking of reused solver objects against fresh ones, and a before/after snapshot of the framework's public observables.",
+    "design_ref": "DESIGN.md section 5, C06", "level_note": _STATIC_NOTE,
+    "technique": "runtime monitoring: differential across configurations and query orders, reference oracle, state snapshot",
+}
+NOT_APPLICABLE[:] = [e for e in NOT_APPLICABLE if e["property_id"] not in ("C06",)]
